@@ -24,7 +24,7 @@ META = {
     'quotas': {
         'quick': {'nodes-compared': 1000, 'defense-nondefault': 10, 'exist-true': 1, 'exist-false': 1,
                   'step-inherited': 10, 'step-overridden': 5, 'name-with-colon': 5, 'dup-name-requested': 5,
-                  'rename-collision-pattern': 2, 'lookups-compared': 1000},
+                  'rename-collision-pattern': 2, 'lookups-compared': 1000, 'class:exist-requirement-setop-multi-source': 20},
         'thorough': {'nodes-compared': 100000, 'defense-nondefault': 1000, 'exist-true': 50, 'exist-false': 50,
                      'step-inherited': 1000, 'step-overridden': 500, 'name-with-colon': 500,
                      'dup-name-requested': 500, 'rename-collision-pattern': 100, 'lookups-compared': 100000},
@@ -56,6 +56,38 @@ def hostile_names(rng, case):
         assets[1]['req_name'] = '%s:%d' % (base, assets[i]['id'])
         assets[i]['req_name'] = base
         case['rename_pattern'] = True
+    return case
+
+
+def hostile_requires(rng, case):
+    """existence steps whose requirement is a set operator evaluated from several sources
+    (f.(g op h)): the element-wise and the whole-set reading differ exactly in whether the
+    requirement reaches anything"""
+    lang = Lang(case['spec'], snapshot=False)
+    for a in case['spec']['assets']:
+        t = a['name']
+        for s in a['attackSteps']:
+            if s['type'] not in ('exist', 'notExist') or not s['requires'] or rng.random() < 0.4:
+                continue
+            if lang.parent[t] and s['name'] in lang.steps(lang.parent[t]):
+                continue      # redefinitions keep the ancestor's requirement
+            f1 = lang.fields_of(t)
+            if not f1:
+                continue
+            f = rng.choice(sorted(f1))
+            u = f1[f][0][1]
+            f2 = lang.fields_of(u)
+            if not f2:
+                continue
+            g, h = rng.choice(sorted(f2)), rng.choice(sorted(f2))
+            if lang.lca(f2[g][0][1], f2[h][0][1]) is None:
+                continue
+            op = rng.choice(['difference', 'difference', 'intersection'])
+            s['requires'] = {'overrides': True, 'stepExpressions': [
+                {'type': 'collect', 'lhs': {'type': 'field', 'name': f},
+                 'rhs': {'type': op, 'lhs': {'type': 'field', 'name': g}, 'rhs': {'type': 'field', 'name': h}}}]}
+            case['hostile_requires'] = True
+    lang._fold_cache.clear()
     return case
 
 
@@ -158,6 +190,11 @@ def check_graph(built, graph, res, count=True):
                 return ('attackgraph.node-attr:existence_status', 'node %s: requirement reaches nothing but status is True' % (key,))
             if count:
                 res.count('exist-true' if n.existence_status else 'exist-false')
+                e0 = s['requires']['stepExpressions'][0]
+                if e0['type'] == 'collect' and e0['rhs']['type'] in ('difference', 'intersection', 'union'):
+                    src = eval_expr(lang, am, a['id'], e0['lhs'])[1]
+                    if len(src) >= 2:
+                        res.count('class:exist-requirement-setop-multi-source')
         elif n.existence_status is not None:
             return ('attackgraph.node-attr:existence_status', 'node %s of type %s has existence_status' % (key, s['type']))
         want_full = a['name'] + ':' + n.name
@@ -212,8 +249,10 @@ def run(rng, res, tier, shard, nshards):
     budget = Budget(CASES[tier] // nshards + 1, SECONDS[tier])
     while budget.more():
         lcfg = Cfg(inherit_bias=0.75) if rng.random() < 0.5 else Cfg()
-        case = gen_case(rng, lcfg, MCfg(hostile_names=0.25), corelang_share=0.04)
+        case = gen_case(rng, lcfg, MCfg(hostile_names=0.25, link_density=rng.choice([1.0, 1.8])), corelang_share=0.04)
         case = hostile_names(rng, case)
+        if case['source'] == 'generated' and rng.random() < 0.6:
+            case = hostile_requires(rng, case)
         first = check_case(case, res)
         res.case(digest([case['spec'], case['amodel']]) if nontrivial(case) else None)
         if res.evaluations <= 2:
